@@ -201,6 +201,14 @@ def run(ctx):
     ctx.audit("Slock.Properties.C09", THEOREMS)
     if ctx.tier == "thorough":
         ctx.leanchecker("Slock.Properties.C09")
+    # what a follower does before a transfer from scratch: LockDB.FlushDB must leave nothing held (harness mode flushdb; monitor only)
+    from props import ms_common, engine_common
+    fexe = ctx.build_harness("server", only=ms_common.MS_FILES)
+    if fexe:
+        fout = ctx.run_harness(fexe, "flushdb", 1, timeout=300)
+        if fout:
+            ctx.diff(fout, "flushdb", classify=lambda op, impl: ("flushdb", op))
+            engine_common.read_monitor(ctx, fout, "flushdb", ["C09:"])
     exe = ctx.build_harness("server", only=["zz_verif_repl_test.go"])
     if exe:
         n = 2500 if ctx.tier == "quick" else 60000
